@@ -17,6 +17,9 @@ Acovf(x, k) == Norm(C(x, k), Len(x) * Len(x) * Len(x))
 Acf(x, k)   == Norm(C(x, k), C(x, 0))                          \* C(x, 0) > 0: the series is not constant
 MeanT(x)    == Norm(ISumT(x), Len(x))
 Difference(x) == [i \in 1..(Len(x) - 1) |-> x[i + 1] - x[i]]
+\* d-fold differencing: every pass shortens the series by one, down to the empty series after Len(x) passes
+RECURSIVE DiffK(_, _)
+DiffK(x, d) == IF d = 0 THEN x ELSE DiffK(Difference(x), d - 1)
 RECURSIVE CumSum(_)
 CumSum(x) == IF Len(x) = 0 THEN <<>> ELSE LET p == CumSum(SubSeq(x, 1, Len(x) - 1)) IN
              Append(p, (IF Len(p) = 0 THEN 0 ELSE p[Len(p)]) + x[Len(x)])
